@@ -977,7 +977,22 @@ func (r *runner) signalOK(ids []int) bool {
 		}
 	}
 	for _, id := range ids {
-		r.sig[id]++
+		r.sig[id] = 1
+	}
+	return true
+}
+
+// an update is also admitted when the only pending signal of the request is an update signal (value 2):
+// UpdateSignal has a buffer of one and processUpdate sends without blocking, so a second update adds
+// no second ready channel to the executor's select
+func (r *runner) signalUpd(ids []int) bool {
+	for _, id := range ids {
+		if r.sig[id] == 1 {
+			return false
+		}
+	}
+	for _, id := range ids {
+		r.sig[id] = 2
 	}
 	return true
 }
@@ -1070,8 +1085,13 @@ func (r *runner) exec(op []string) string {
 		if p < 0 || p >= e.npeers || !idOK(id) || plan == "" {
 			return "bad"
 		}
-		if !r.signalOK(r.signalling(id, graphsync.Running, graphsync.Queued)) {
-			return "refused"
+		if ids := r.signalling(id, graphsync.Running, graphsync.Queued); len(ids) > 0 {
+			if r.sig[id] == 2 {
+				r.out.Cov("upd.second-before-signal-check")
+			}
+			if !r.signalUpd(ids) {
+				return "refused"
+			}
 		}
 		r.out.Cov("upd." + plan)
 		req := gsmsg.NewUpdateRequest(e.ids[id], graphsync.ExtensionData{Name: updPlanName, Data: basicnode.NewString(plan)})
